@@ -531,6 +531,24 @@ pub fn analyse(
         && connected
         && run.end_ms.saturating_sub(last_fault) >= 60_000
         && run.end_ms.saturating_sub(connected_since) >= 30_000;
+    // "once any sequence of ... connection interruptions stops": a minute after the last fault the master must be connected
+    // again (its reconnect delay is at most two seconds) and stay so; a session that never comes back, or keeps flapping,
+    // is itself a failure to converge
+    if !settled
+        && violation.is_none()
+        && enabled_at_end
+        && run.end_ms.saturating_sub(last_fault) >= 60_000
+    {
+        bump("probe.not_settled_at_end", 1);
+        violation = Some(Violation::new(
+            "C02/connection-not-re-established",
+            if connected { "flapping" } else { "down" },
+            format!(
+                "the last fault or update was at {} ms, the run ended at {} ms with the channel enabled: connected = {}, since {} ms",
+                last_fault, run.end_ms, connected, connected_since
+            ),
+        ));
+    }
     if settled && violation.is_none() {
         bump("probe.convergence_checked", 1);
         // (e) every event that was not discarded reached the handler at least once
